@@ -130,6 +130,19 @@ func instrIndex(in ssa.Instruction) int {
 	return -1
 }
 
+// evalBoolAlt evaluates e twice: with opaque predicates applied, and with
+// their bodies expanded (equivalent by the defining axioms).
+func (x *Exec) evalBoolAlt(env *Env, e *Expr) (string, string) {
+	p := x.evalBool(env, e)
+	x.expandPreds = true
+	alt := x.evalBool(env, e)
+	x.expandPreds = false
+	if alt == p {
+		alt = ""
+	}
+	return p, alt
+}
+
 func (x *Exec) evalBool(env *Env, e *Expr) string {
 	v := x.evalExpr(env, e)
 	s, ok := v.(Scalar)
@@ -196,7 +209,7 @@ func (x *Exec) evalExpr(env *Env, e *Expr) Value {
 		if e.Args[1] != nil {
 			hi = x.term(x.typed(x.evalExpr(env, e.Args[1]), u64T))
 		}
-		return SliceV{Base: s.Base, Off: bvadd(s.Off, lo), Len: bvsub(hi, lo), Cap: bvsub(s.Cap, lo), Elem: s.Elem}
+		return SliceV{Base: s.Base, Off: bvadd(s.Off, lo), Len: bvsub(hi, lo), Cap: bvsub(s.Cap, lo), Elem: s.Elem, Region: s.Region, New: s.New}
 	}
 	x.fail("cannot evaluate %s (%s)", e, e.Kind)
 	return nil
@@ -380,7 +393,7 @@ func (x *Exec) evalLValue(env *Env, e *Expr) Ptr {
 		b := x.evalExpr(env, e.X)
 		if s, ok := b.(SliceV); ok {
 			i := x.term(x.typed(x.evalExpr(env, e.Y), u64T))
-			return Ptr{Base: s.Base, Root: types.NewSlice(s.Elem), Path: []Step{{Idx: bvadd(s.Off, i)}}}
+			return Ptr{Base: s.Base, Root: x.regionOf(s).root(), Path: []Step{{Idx: elemAt(s.Off, i)}}}
 		}
 	case "ident":
 		if v, ok := env.lookupVar(e.Name); ok {
@@ -418,7 +431,7 @@ func (x *Exec) evalIndex(env *Env, e *Expr) Value {
 	switch b := base.(type) {
 	case SliceV:
 		i := x.term(x.typed(x.evalExpr(env, e.Y), u64T))
-		return x.load(env.st, Ptr{Base: b.Base, Root: types.NewSlice(b.Elem), Path: []Step{{Idx: bvadd(b.Off, i)}}})
+		return x.load(env.st, Ptr{Base: b.Base, Root: x.regionOf(b).root(), Path: []Step{{Idx: elemAt(b.Off, i)}}})
 	case GhostArr:
 		k := x.evalExpr(env, e.Y)
 		if b.Typ.Key.Key == nil {
@@ -627,7 +640,7 @@ func (x *Exec) evalCall(env *Env, e *Expr) Value {
 			// expressible without lambdas; elems(s) is the raw inner array (off must be 0)
 			s := x.evalExpr(env, e.Args[0]).(SliceV)
 			var leaves [][2]string
-			x.elemLeaves(s.Elem, rootKey(types.NewSlice(s.Elem)), &leaves)
+			x.elemLeaves(s.Elem, x.regionOf(s).key(), &leaves)
 			if len(leaves) != 1 {
 				x.fail("elems() of struct slice")
 			}
@@ -682,6 +695,8 @@ func (x *Exec) evalSpecFunc(env *Env, sf *SpecFunc, e *Expr) Value {
 			sub.pkg = p
 		}
 	}
+	var actuals []Value
+	var ptypes []types.Type
 	for i, p := range sf.Params {
 		v := x.evalExpr(env, e.Args[i])
 		t := x.P.resolveType(sub.pkg, p.Type)
@@ -689,8 +704,133 @@ func (x *Exec) evalSpecFunc(env *Env, sf *SpecFunc, e *Expr) Value {
 			v = x.typed(v, t)
 		}
 		sub.vars[p.Name] = v
+		actuals = append(actuals, v)
+		ptypes = append(ptypes, t)
+	}
+	if sf.Opaque && !x.expandPreds {
+		return x.applyPredicate(&sub, sf, actuals, ptypes)
 	}
 	return x.evalExpr(&sub, sf.Body)
+}
+
+type predDef struct {
+	fn     string
+	leaves []string
+}
+
+// flatten lists the SMT terms (and sorts) that make up a value.
+func (x *Exec) flatten(v Value, terms *[]string, sorts *[]string) {
+	switch s := v.(type) {
+	case Scalar:
+		*terms = append(*terms, x.term(s))
+		*sorts = append(*sorts, sortOf(s.Typ))
+	case Ptr:
+		*terms = append(*terms, x.term(s))
+		*sorts = append(*sorts, "Int")
+	case SliceV:
+		*terms = append(*terms, s.Base, s.Off, s.Len, s.Cap)
+		*sorts = append(*sorts, "Int", "(_ BitVec 64)", "(_ BitVec 64)", "(_ BitVec 64)")
+	case Iface:
+		*terms = append(*terms, s.Tag, s.Ref)
+		*sorts = append(*sorts, "Int", "Int")
+	case Record:
+		for _, f := range s.Fields {
+			x.flatten(f, terms, sorts)
+		}
+	case GhostArr:
+		*terms = append(*terms, s.T)
+		*sorts = append(*sorts, s.Sort)
+	default:
+		x.fail("predicate argument of kind %T unsupported", v)
+	}
+}
+
+// placeholder builds a value of type t out of fresh bound-variable names.
+func (x *Exec) placeholder(t types.Type, hint string) Value {
+	t = types.Unalias(t)
+	switch u := t.Underlying().(type) {
+	case *types.Struct:
+		r := Record{Typ: t}
+		for i := 0; i < u.NumFields(); i++ {
+			r.Fields = append(r.Fields, x.placeholder(u.Field(i).Type(), hint+"."+u.Field(i).Name()))
+		}
+		return r
+	case *types.Slice:
+		return SliceV{Base: x.em.fresh(hint + ".base"), Off: x.em.fresh(hint + ".off"), Len: x.em.fresh(hint + ".len"), Cap: x.em.fresh(hint + ".cap"), Elem: u.Elem()}
+	case *types.Interface:
+		return Iface{Tag: x.em.fresh(hint + ".tag"), Ref: x.em.fresh(hint + ".ref"), Typ: t}
+	case *types.Pointer:
+		return Ptr{Base: x.em.fresh(hint), Root: u.Elem()}
+	}
+	return Scalar{T: x.em.fresh(hint), Typ: t}
+}
+
+// applyPredicate applies an opaque boolean spec function: an uninterpreted
+// function of the heap leaves its body reads and of its arguments, with one
+// defining axiom. Facts about it survive heap merges by congruence instead of
+// having to be re-derived through the quantifiers in its body.
+func (x *Exec) applyPredicate(sub *Env, sf *SpecFunc, actuals []Value, ptypes []types.Type) Value {
+	def, ok := x.preds[sf.Name]
+	if !ok {
+		ph := &State{Reach: "true", Heap: map[string]string{}, Epoch: -1 - len(x.preds), Frontier: "F0"}
+		penv := *sub
+		penv.st = ph
+		penv.old = nil
+		penv.vars = map[string]Value{}
+		var pterms, psorts []string
+		for i, p := range sf.Params {
+			pv := x.placeholder(ptypes[i], "pa_"+p.Name)
+			penv.vars[p.Name] = pv
+			x.flatten(pv, &pterms, &psorts)
+		}
+		x.em.inQuant++
+		body := x.evalBool(&penv, sf.Body)
+		x.em.inQuant--
+		def = &predDef{fn: "pred." + sanitize(sf.Name)}
+		def.leaves = sortedKeys(ph.Heap)
+		var binders, args, fsorts []string
+		for _, k := range def.leaves {
+			l := x.leaves[k]
+			binders = append(binders, "("+ph.Heap[k]+" "+l.ArraySort()+")")
+			args = append(args, ph.Heap[k])
+			fsorts = append(fsorts, l.ArraySort())
+		}
+		for i, t := range pterms {
+			binders = append(binders, "("+t+" "+psorts[i]+")")
+			args = append(args, t)
+			fsorts = append(fsorts, psorts[i])
+		}
+		x.em.items = append(x.em.items, item{line: fmt.Sprintf("(declare-fun %s (%s) Bool)", def.fn, strings.Join(fsorts, " "))})
+		// No defining axiom is emitted: the predicate is unfolded eagerly wherever
+		// it is applied ("application implies body"), and wherever it has to be
+		// proved the obligation offers the expanded body as an alternative goal.
+		// Under the intended interpretation (predicate := body) every assertion
+		// made about it is true, so what is proved holds for the body.
+		_ = body
+		_ = binders
+		x.preds[sf.Name] = def
+	}
+	var args []string
+	for _, k := range def.leaves {
+		args = append(args, x.heapGet(sub.st, x.leaves[k]))
+	}
+	var sorts []string
+	for _, a := range actuals {
+		x.flatten(a, &args, &sorts)
+	}
+	app := def.fn
+	if len(args) > 0 {
+		app = "(" + def.fn + " " + strings.Join(args, " ") + ")"
+	}
+	// eager unfolding of the "predicate implies body" direction at the heap the
+	// application refers to (a valid instance of the defining axiom): nested
+	// quantifiers reached only through the axiom are instantiated unreliably.
+	if x.em.inQuant == 0 && !x.unfolded[app] {
+		x.unfolded[app] = true
+		body := x.evalBool(sub, sf.Body)
+		x.em.items = append(x.em.items, item{line: "(assert " + implies(app, body) + ")"})
+	}
+	return Scalar{T: app, Typ: boolT}
 }
 
 // evalGoCall evaluates a side-effect-free Go function by inlining its SSA.
